@@ -288,6 +288,8 @@ def cut_loop(ex, node, st, lid, lspec, it, guard, auto_range):
         for v in wv:
             if v in h.vars and h.vars[v] is not POISON and h.vars[v] is not None:
                 h.vars[v] = havoc_like(h.vars[v], v)
+                for fact in basic_facts(h.vars[v]):
+                    ctx.hyps.append(fact)
         for key in wh:
             k = ctx.reg.fields[key]
             h.heap[key] = [z3.Const(uid("H_%s_%s" % key), z3.ArraySort(z3.IntSort(), s)) for s in flat(k)]
